@@ -156,12 +156,12 @@ def check_text(text, case, prev_text=None):
             prev_names = None
         try:
             if prev_names:
-                g1, g2 = p.list_names(text), p.list_names(prev_text)
+                g1, g2 = iter(p.list_names(text)), iter(p.list_names(prev_text))
                 z = list(zip(g1, g2))
                 if z != list(zip(rnames, prev_names)):
                     bad('interleaved-generators', f'zip(list_names(a), list_names(b)) with b={prev_text!r} gave {z!r}')
                     return fails, info
-            g = p.list_names(text)
+            g = iter(p.list_names(text))        # any iterable is fine, not necessarily a generator
             first = next(g)
             try:
                 p.parse(prev_text)
